@@ -26,14 +26,18 @@ package goat
 //@   | self.ctx != nil && self.cancel != nil && self.srv != nil && self.rw != nil && self.codec != nil && self.streams != nil && self.writeChan != nil && self.unaryRpcChan != nil
 //@   | && self.srv.services != nil && (forall j Int :: 0 <= j && j < len(self.srv.statsHandlers) ==> self.srv.statsHandlers[j] != nil)
 
-//@ chanclass goat.streams.ch msg: m != nil && m.Id == tag(ch) && m.Header != nil
+//@ chanclass[C05.queue_carries_own_envelopes C02.queue_carries_own_envelopes C12.queue_carries_own_envelopes] goat.streams.ch msg: m != nil && m.Id == tag(ch) && m.Header != nil
 //@ chan H.goat.handler.writeChan never_closed
 //@ chan H.goat.handler.unaryRpcChan never_closed
 //@ chan Mval.map_Luint64_Rgoat.streamHandler.ch never_closed
 //@ chan Mval.map_Luint64_Rgoat.streamHandler.done never_closed
+// the class of a channel is a refinement of the place it is stored in (proved at every store, assumed at every load)
+//@ chan Mval.map_Luint64_Rgoat.streamHandler.ch class goat.streams.ch
+//@ chan H.goat.handler.unaryRpcChan class goat.unaryRpcChan
+//@ chan H.goat.streamHandler.ch class goat.streams.ch
 
 // the transport's write side belongs to the writer goroutine started by serve
-//@ field[C06.single_writer C03.single_writer] goat.handler.rw used_only_in goat.newHandler goat.(*handler).serve goat.(*handler).serve$1
+//@ field[C06.single_writer C03.single_writer] goat.handler.rw used_only_in goat.newHandler goat.(*handler).serve goat.(*handler).serve$2
 
 //@ lock goat.handler.mu teardown guards streams
 //@   inv[C05.stream_registry C12.stream_registry C14.stream_registry C10.stream_registry C07.stream_registry C11.stream_registry C02.stream_registry] forall id Int :: id in self.streams ==>
@@ -61,7 +65,7 @@ package goat
 //@ func goat.(*handler).processStreamingRpc
 //@   nopanic[C12.nopanic]
 //@   ctxaware[C10.read_loop_escapes]
-//@   requires[C12.dispatch_wellformed] rpc != nil && rpc.Header != nil && info != nil && sd != nil && clientCtx != nil
+//@   requires[C12.dispatch_wellformed] rpc != nil && rpc.Header != nil && info != nil && sd != nil && sd.Handler != nil && clientCtx != nil
 //@   makechan 0 tag rpc.Id class goat.streams.ch
 //@   makechan 1 tag rpc.Id
 //@   atcall[C05.deliver_to_owner C02.forward_unchanged] send : isclass(arg0, "goat.streams.ch") ==> tag(arg0) == rpc.Id && arg1 == rpc
@@ -86,7 +90,7 @@ package goat
 //@   ensures[C08.deadline_from_header] result.2 == nil && (exists j Int :: 0 <= j && j < len(h.Headers) && lower(h.Headers[j].Key) == "grpc-timeout" && G(h.Headers[j].Value)) ==> ctx_hasdl(result.0) && ctx_newdl(result.0)
 //@   ensures[C08.timeout_is_header_value] result.2 == nil && ctx_newdl(result.0) && !ctx_newdl(parent) ==> (exists j Int :: 0 <= j && j < len(h.Headers) && lower(h.Headers[j].Key) == "grpc-timeout" && DU(h.Headers[j].Value) && ctx_timeout(result.0) == timeoutNs(h.Headers[j].Value))
 
-//@ chanclass goat.unaryRpcChan msg: m.rpc != nil && m.rpc.Header != nil && m.info != nil && m.md != nil && m.md.Handler != nil
+//@ chanclass[C12.dispatch_wellformed C01.dispatch_wellformed C03.dispatch_wellformed C04.dispatch_wellformed C05.dispatch_wellformed C06.dispatch_wellformed C08.dispatch_wellformed C10.dispatch_wellformed C16.dispatch_wellformed C20.dispatch_wellformed] goat.unaryRpcChan msg: m.rpc != nil && m.rpc.Header != nil && m.info != nil && m.md != nil && m.md.Handler != nil
 //@ objinv[C12.objinv C01.objinv] goat.handler : isclass(self.unaryRpcChan, "goat.unaryRpcChan")
 
 //@ func goat.newHandler
@@ -124,7 +128,7 @@ package goat
 //@ func goat.(*handler).runStream
 //@   nopanic[C12.nopanic]
 //@   requires info != nil && sd != nil && sd.Handler != nil && rpc != nil && rpc.Header != nil && ctx != nil
-//@   requires handler.ch != nil && handler.cancel != nil && handler.done != nil && isclass(handler.ch, "goat.streams.ch") && tag(handler.ch) == streamId
+//@   requires handler.ch != nil && handler.cancel != nil && handler.done != nil && isclass(handler.ch, "goat.streams.ch") && tag(handler.ch) == streamId && isclass(handler.done, "none")
 //@   ensures[C14.stream_unregistered C10.stream_unregistered] !(streamId in h.streams)
 //@   ensures[C06.trailer_after_handler C02.trailer_after_handler C03.trailer_after_handler] ncalls("call:server.(*serverStream).SendTrailer") == old(ncalls("call:server.(*serverStream).SendTrailer")) + 1
 //@   ensures[C01.handler_once C20.handler_once C12.handler_once] ncalls("fnfield:H.google.golang.org/grpc.StreamDesc.Handler") + ncalls("fnfield:H.goat.Server.streamInterceptor")
@@ -161,10 +165,12 @@ package goat
 // ---------------------------------------------------------------------------------
 // proxy
 
-//@ objinv[C16.objinv C17.objinv] goat.Proxy : self.clients != nil && self.commands != nil && self.ctx != nil
+//@ objinv[C16.objinv C17.objinv] goat.Proxy : self.clients != nil && self.commands != nil && self.ctx != nil && self.newConnection != nil
 //@ chan H.goat.Proxy.commands never_closed
 //@ chan H.goat.proxyClient.toServer never_closed
 //@ chan H.goat.proxyClient.fromServer never_closed
+//@ chan H.goat.Proxy.commands class goat.proxy.commands
+//@ chan H.goat.proxyClient.toServer class goat.proxy.commands
 
 //@ lock goat.Proxy.mutex guards clients
 //@   inv[C16.clients_wellformed C17.clients_wellformed] forall k String :: k in self.clients ==> self.clients[k] != nil && self.clients[k].fromServer != nil && self.clients[k].id == k
@@ -195,13 +201,16 @@ package goat
 //@     | && (forall j Int :: 0 <= j && j < len(aftercall("rpcIntercepter", rpc.Header.ProxyRecord)) ==> rpc.Header.ProxyRecord[j] == aftercall("rpcIntercepter", rpc.Header.ProxyRecord)[j])
 //@   ensures[C16.interceptor_error_drops] bound("err") && err != nil ==> ncalls("send") == old(ncalls("send")) && rpc.Header.ProxyRecord == aftercall("rpcIntercepter", rpc.Header.ProxyRecord)
 
-//@ chanclass goat.proxy.commands msg: (m.rpc == nil && m.err != nil ==> m.client != nil && m.client.id == m.id)
+//@ chanclass[C17.failure_names_its_connection C16.failure_names_its_connection] goat.proxy.commands msg: (m.rpc == nil && m.err != nil ==> m.client != nil && m.client.id == m.id)
 //@ objinv[C17.objinv C16.objinv] goat.Proxy : isclass(self.commands, "goat.proxy.commands")
 //@ objinv[C17.objinv C16.objinv] goat.proxyClient : self.toServer != nil && self.fromServer != nil && isclass(self.toServer, "goat.proxy.commands")
 
+// API precondition: a proxy is given a context and a dial function (the interceptor and the disconnect callback may be nil)
 //@ func goat.NewProxy
 //@   nopanic[C17.nopanic]
+//@   requires ctx != nil && newConnection != nil
 //@   makechan 0 tag 0 class goat.proxy.commands
+//@   ensures[C17.constructed_wellformed C16.constructed_wellformed] objinv(result)
 
 //@ func goat.(*Proxy).serveClients
 //@   nopanic[C17.nopanic]
@@ -221,9 +230,17 @@ package goat
 //@   requires ctx != nil && c.conn != nil
 //@   atcall[C16.write_unchanged] (types.RpcReadWriter).Write : arg2 == rpc && arg1 == ctx
 
+// the connection's two loops run under a group context derived from the proxy's
+//@ func goat.(*proxyClient).readWrite
+//@   requires ctx != nil && c.conn != nil
+//@ func goat.(*proxyClient).readWrite$1
+//@   captures ctx != nil && c != nil && c.conn != nil
+//@ func goat.(*proxyClient).readWrite$2
+//@   captures ctx != nil && c != nil && c.conn != nil
+
 //@ func goat.(*proxyClient).connect
 //@   nopanic[C17.nopanic]
-//@   requires newConnection != nil
+//@   requires newConnection != nil && ctx != nil
 //@   ensures[C17.dial_error_reported_not_started] bound("err") && err != nil ==> ncalls("send") == old(ncalls("send")) + 1 && ncalls("go:(*github.com/avos-io/goat.proxyClient).readWrite") == old(ncalls("go:(*github.com/avos-io/goat.proxyClient).readWrite"))
 
 // ---------------------------------------------------------------------------------
@@ -264,6 +281,11 @@ package goat
 //@   atcall[C18.write_unchanged] (types.RpcReadWriter).Write : bound("rpc") && arg2 == rpc && arg1 == gsd.ctx
 
 // channel transport closures
+// the two queues are the caller's own plain channels (not one of goat's internal classed queues)
+//@ func goat.NewGoatOverChannel
+//@   inline
+//@   requires isclass(inQ, "none") && isclass(outQ, "none")
+
 //@ func goat.NewGoatOverChannel$1
 //@   nopanic[C18.nopanic C19.nopanic]
 //@   ctxaware[C19.read_returns_on_ctx]
@@ -273,6 +295,7 @@ package goat
 
 //@ func goat.NewGoatOverChannel$2
 //@   nopanic[C18.nopanic C19.nopanic]
+//@   captures isclass(outQ, "none")
 //@   ctxaware[C19.write_returns_on_ctx]
 //@   requires ctx != nil
 //@   atcall[C19.write_hands_over_same_envelope C18.write_hands_over_same_envelope] send : arg1 == rpc
@@ -480,3 +503,17 @@ package goat
 //@ lemma[C08.deadline_window] deadline_window : rem Int, ms Int
 //@   requires (rem >= 1000000 ==> ms == rem / 1000000) && (rem < 1000000 ==> ms == 1)
 //@   ensures (rem >= 1000000 ==> ms * 1000000 <= rem && rem - ms * 1000000 < 1000000) && (rem < 1000000 ==> ms * 1000000 == 1000000)
+
+// what a user interceptor is handed as invoker/streamer: the same preconditions as the public entry points
+//@ func goat.(*ClientConn).asInvoker
+//@   requires ctx != nil && len(opts) == 0
+//@ func goat.(*ClientConn).asStreamer
+//@   requires ctx != nil && desc != nil && len(opts) == 0
+
+// API precondition: a peer is attached with a usable connection
+//@ func goat.(*Proxy).AddClient
+//@   requires conn != nil
+
+// unary worker of a connection
+//@ func goat.(*handler).serve$3
+//@   captures clientCtx != nil
